@@ -307,9 +307,21 @@ class Gen:
             return
         r = rng.random()
         names = [p['name'] for p in c['params']]
+        # a sweetener of a base class also runs on objects of derived
+        # classes: renaming keys (dashes) and recognisers that name keys must
+        # not meet in one hierarchy, or the model contradicts itself
+        chain = [d for d in self.classes if d is not c and (
+            d['name'] in self.ancestors(c) or c['name'] in self.ancestors(d))]
+        chain_dashes = any(d.get('sweeten') == [['unders_to_dashes']]
+                           for d in chain)
+        chain_recog = any(d.get('recognize') for d in chain)
+        chain_extra = any(d.get('extra') for d in chain)
         if r < 0.12 and not c.get('extra'):
-            c['savorize'] = [['dashes_to_unders']]
-            c['sweeten'] = [['unders_to_dashes']]
+            if not chain_recog and not chain_extra:
+                c['savorize'] = [['dashes_to_unders']]
+                c['sweeten'] = [['unders_to_dashes']]
+        elif chain_dashes and r < 0.36:
+            pass
         elif r < 0.2:
             kind_attr = 'kind'
             if kind_attr not in names and not c.get('extra'):
@@ -479,7 +491,9 @@ def relax(spec, rng, intensity=None):
                         b.get('bases', [])) & {a['name']} and \
                         a['name'] not in _ancestors(spec, b) and \
                         b['name'] not in _ancestors(spec, a) and \
-                        not (a.get('abc') or b.get('abc')):
+                        not (a.get('abc') or b.get('abc')) and \
+                        not (a.get('attributes_hook')
+                             or b.get('attributes_hook')):
                     c['bases'] = [a['name'], b['name']]
         else:
             # duplicate a class under a new name: same attributes => siblings
